@@ -364,7 +364,7 @@ func runC11(c *Ctx, r *Report, tier string) {
 	for _, f := range append([]*ssa.Function{set}, c.newCallees(set)...) {
 		for _, l := range c.loopsDeep(f) {
 			iff, ok := l.Header.Instrs[len(l.Header.Instrs)-1].(*ssa.If)
-			if ok && strings.HasPrefix(c.cond(iff.Cond).Term, "lt((phi{(phi↺ + 1) | -1} + 1), len(Option.Choices(P0)))") {
+			if ok && strings.HasPrefix(c.cond(iff.Cond).Term, "lt(phi{(phi↺ + 1) | 0}, len(Option.Choices(P0)))") {
 				okLoop = true
 			}
 			// counted form: for i := 0; i < len(choices) [&& !found]; i++
